@@ -190,8 +190,18 @@ pub fn check(_ctx: &Ctx, input: &Input) -> CaseResult {
             let mut b = p.bytes;
             if want_dwarf {
                 let mut ch = Ch::new(bytes);
-                if let Some(with) = crate::dwarf::attach_dwarf(&b, &mut ch) {
+                // section order carries no meaning: a third of the inputs have
+                // their DWARF sections in reverse order, another third carry an
+                // (unreferenced, header-only) `.debug_str_offsets` table in
+                // front of `.debug_str`
+                let variant = bytes.get(2).copied().unwrap_or(0) % 3;
+                if let Some(with) = crate::dwarf::attach_dwarf_with(&b, &mut ch, variant == 1, variant == 2) {
                     b = with;
+                    match variant {
+                        1 => out.label("input:dwarf-sections-reversed"),
+                        2 => out.label("input:dwarf-with-str-offsets-table"),
+                        _ => {}
+                    }
                 } else if let Some(with) = crate::dwarf::attach_dwarf_codeless(&b) {
                     b = with;
                     out.label("input:dwarf-without-code");
@@ -422,6 +432,21 @@ pub fn check(_ctx: &Ctx, input: &Input) -> CaseResult {
                 format!("config bits {:05b}: input carries DWARF, DWARF generation is on, output has no .debug_* section [{}]", bits, origin),
             ));
         }
+        // "carried into the output": the subprograms the input's DWARF
+        // names are the subprograms the output's DWARF names
+        if cfg.dwarf && has_debug && out_debug && origin.starts_with("gen:") {
+            if let (Ok(ri), Ok(ro)) = (crate::dwarf::read_back(&bytes), crate::dwarf::read_back(base)) {
+                let ni: Vec<&String> = ri.subprograms.keys().collect();
+                let no: Vec<&String> = ro.subprograms.keys().collect();
+                if ni != no {
+                    return Err(Failure::new(
+                        "debug-content-not-carried:subprogram-names",
+                        format!("config bits {:05b}: input DWARF names subprograms {:?}, output DWARF names {:?} [{}]", bits, ni, no, origin),
+                    ));
+                }
+                out.label("dwarf-content-compared");
+            }
+        }
         if out_debug && !has_debug {
             return Err(Failure::new(
                 "debug-sections-invented",
@@ -591,6 +616,25 @@ fn check_producers(input: &Option<Producers>, output: &Producers, k: usize, orig
                         format!("input producers entry ({}, {}, {}) is missing after {} round trip(s): {:?} [{}]", field, name, version, k, output, origin),
                     ));
                 }
+            }
+        }
+    }
+    // "preserved", the other direction: apart from walrus's own processed-by
+    // entry nothing is listed that the input did not list in that field
+    for (field, vals) in output {
+        for (name, version) in vals {
+            if field == "processed-by" && name == "walrus" {
+                continue;
+            }
+            let listed = input
+                .as_ref()
+                .map(|inp| inp.iter().any(|(f, v)| f == field && v.iter().any(|(n, ver)| n == name && ver == version)))
+                .unwrap_or(false);
+            if !listed {
+                return Err(Failure::new(
+                    "producers-entry-invented",
+                    format!("output producers entry ({}, {}, {}) after {} round trip(s) is not an entry of that field in the input {:?}: {:?} [{}]", field, name, version, k, input, output, origin),
+                ));
             }
         }
     }
